@@ -15,6 +15,7 @@ pub mod c18;
 pub mod c18_impls;
 pub mod c19;
 pub mod c20;
+pub mod c21;
 pub mod c22;
 pub mod c22_model;
 pub mod c23;
@@ -41,6 +42,7 @@ pub fn run(ctx: &Ctx, out: &mut Out) -> bool {
         "C05" => c05::run(ctx, out),
         "C06" => c06::run(ctx, out),
         "C07" => c07::run(ctx, out),
+        "C21" => c21::run(ctx, out),
         "C28" => c28::run(ctx, out),
         "C08" => c08::run(ctx, out),
         "C09" | "C10" | "C11" | "C12" => fp::run(ctx, out),
